@@ -22,7 +22,14 @@ THEOREMS = ['C20.scope_injective', 'C20.scope_stable', 'C20.chain_claims', 'C20.
             'C20.k_pipeline_text_module_accepted', 'C20.k_pipeline_ground_text_module_accepted', 'C20.eq_truthful_on_quiet', 'C20.k_patterns_quiet',
             'C20.k_module_cfg_accepted', 'C20.k_module_memo_accepted', 'C20.k_module_memo_bytes_accepted', 'C20.k_module_memo_sound',
             'C20.k_trace_text_module_memo_accepted', 'C20.Example.text_accepted', 'C20.Example.pipeline_ground_accepted', 'C20.Example.memo_accepted',
-            'C20.Example.quiet_boundary']
+            'C20.Example.quiet_boundary',
+            # definitions with SEVERAL modules (Props/C20d.lean, KDefTieM.lean; specification KDefSpec.sigOfDefinitionM): the several-module
+            # specification is the one-module one on one module, the tie theorems restated with it, one counter / the signature of all modules
+            # in the specification, and the tie DECIDED on a diamond of four modules for two set orders (the general several-module tie is
+            # not proved: vlib/try_kdef.py compares specification / generated text / real code on generated several-module definitions)
+            'C20.multi_spec_is_the_one_module_spec', 'C20.kore_definition_text_is_the_model_multi_one', 'C20.k_pipeline_text_is_the_model_multi_one',
+            'C20.multi_spec_one_counter', 'C20.multi_spec_signature_of_all_modules', 'C20.ExampleMulti.diamond_ok', 'C20.ExampleMulti.island_ok',
+            'C20.ExampleMulti.trace_ok', 'C20.ExampleMulti.refusals']
 
 
 def unhex(h):
@@ -31,7 +38,7 @@ def unhex(h):
 
 def run(rep):
     rng = random.Random(rep.seed * 1000003 + 20)
-    ok, detail = core.proof_gate(rep, 'Pi2.Props.C20c', THEOREMS)
+    ok, detail = core.proof_gate(rep, 'Pi2.Props.C20d', THEOREMS)
     core.rust_build()
     quick = rep.tier == 'quick'
     findings = []
@@ -232,8 +239,11 @@ def run(rep):
                 'non-functional terms); REAL LanguageSemantics.from_kore_definition / get_proof_hints / ExecutionProofExp vs the Lean model (conversion '
                 'results, scopes, axioms, claims, current configuration, refusals); Kore-level oracle for acceptance and for every claim; serialised '
                 'modules (plain and --optimize) on the real checker with the publish journal; Kore definitions with skipped / equational axioms, hooked sorts, other '
-                'sentences, broken declarations, two modules: sigOfDefinition vs the check\'s Sig and rules, generated from_kore_definition / get_proof_hints vs the real ones, hint '
-                'streams with non-rule events, unknown / skipped ordinals vs traceStepsR',
+                'sentences, broken declarations, definitions of 2-4 modules (import chains, a diamond, a module with a rule that the main module does not import, random '
+                'import graphs; broken: import of a later / unknown module, module name taken twice, module imported twice, symbol over a sort that is not imported, '
+                'sort / symbol declared twice in one module): sigOfDefinitionM (= sigOfDefinition on one module) vs the check\'s Sig, rules, modules and scopes, and vs the '
+                'real LanguageSemantics per module, generated from_kore_definition / get_proof_hints vs the real ones, hint streams with non-rule events, unknown / skipped '
+                'ordinals, rules of modules that are not imported vs traceStepsR',
         'programs': len(tl), 'conversions_ok': n_conv_ok, 'traces_accepted': n_ok, 'traces_refused': n_refused, 'modules_checked': n_checked,
         'claims_checked': len(claim_checks), 'outcomes': {f'{k[0]}:{k[1]}': v for k, v in outcomes.items()},
         'disagreements_checked': len(findings),
